@@ -541,6 +541,32 @@ ENTRIES = {
     'aggregate-lazy-inner': E(
         '$c.aggregate([$1, [1].select($ + $2)], 0)',
         lambda L, a: _reduce(L, lambda p, q: [p, [1 + q]], 0)),
+    # ---- a memorized collection traversed by overlapping consumers -----------
+    'memorize-zip-self': E(
+        'let(m => $c.memorize()) -> $m.zip($m)',
+        lambda L, a: [[x, x] for x in L]),
+    'memorize-nested-len': E(
+        'let(m => $c.memorize()) -> $m.select([$, $m.len()])',
+        lambda L, a: [[x, len(L)] for x in L]),
+    'memorize-join-self': E(
+        'let(m => $c.memorize()) -> $m.join($m, $1 = $2, $1)',
+        lambda L, a: [x for x in L for y in L if x == y]),
+    'memorize-where-in-self': E(
+        'let(m => $c.memorize()) -> $m.where(($ + 1) in $m)',
+        lambda L, a: [x for x in L if x + 1 in L]),
+    'memorize-twice': E(
+        'let(m => $c.memorize()) -> [$m.len(), $m.sum(0), $m.toList()]',
+        lambda L, a: [len(L), sum(L), L]),
+    # ---- list() / set() flatten iterators at every depth ---------------------
+    'list-nested-iterators': E(
+        'list($c.select(range($ mod 3)))',
+        lambda L, a: [y for x in L for y in range(x % 3)]),
+    'list-nested-iterators-2': E(
+        'list($c.select(range(2).select(range($ + 1))))',
+        lambda L, a: [z for x in L for y in range(2) for z in range(y + 1)]),
+    'set-nested-iterators': E(
+        'set($c.select(range($ mod 3))).orderBy($)',
+        lambda L, a: sorted({y for x in L for y in range(x % 3)})),
     # ---- distinct by key on sets and key views ----------------------------
     'set-distinct-by': E(
         '$c.toSet().distinct($ mod 3).select($ mod 3).orderBy($)',
